@@ -311,7 +311,12 @@ func runOneW(seed int64, idx int, synced bool, tag string, wdog string) (string,
 	res := vlib.RunChild(self, []string{"child", fmt.Sprint(seed), fmt.Sprint(idx), fmt.Sprint(idx + 1), j, r, l, sy}, env, nil, 4*time.Minute)
 	logb, _ := os.ReadFile(l)
 	var last *scriptResult
+	preOK := false
 	for _, ln := range readLines(r) {
+		var st selfTestReport
+		if json.Unmarshal(ln, &st) == nil && st.SelfTest == "pre" {
+			preOK = st.OK
+		}
 		var sr scriptResult
 		if json.Unmarshal(ln, &sr) == nil && sr.Kind != "" && sr.Idx == idx {
 			x := sr
@@ -327,7 +332,8 @@ func runOneW(seed int64, idx int, synced bool, tag string, wdog string) (string,
 		return "anomaly", last, string(logb)
 	case res.ExitCode == exitHang:
 		return "hang", last, string(logb)
-	case res.ExitCode == exitSelfTest || res.ExitCode == exitBroken:
+	case res.ExitCode == exitSelfTest || res.ExitCode == exitBroken || !preOK:
+		// (also: the child died before or during the benign conversation — never a verdict)
 		return "selftest-failed", last, string(logb)
 	case res.ExitCode == exitPostTest:
 		return "posttest-failed", last, string(logb)
@@ -443,6 +449,7 @@ func runBatch(b batch, bi int) {
 		logb, _ := os.ReadFile(l)
 		logs := string(logb)
 		if !preOK && res.ExitCode != exitOK {
+			run.Count("net.scripts_not_run(self-test failed)", int64(b.to-cur))
 			if len(lines) == 0 {
 				run.Inconclusive("batch %d [%d,%d): child died before the self-test finished (exit %d %s): %s", bi, cur, b.to, res.ExitCode, res.Signal, tail(logs, 600))
 			}
@@ -680,6 +687,7 @@ func runNetwork(nScripts int, from int) {
 		// one batch in eight runs against a node that is still in initial block download
 		batches = append(batches, batch{s, e, (s/per)%8 != 7})
 	}
+	run.Count("net.batches", int64(len(batches)))
 	vlib.Parallel(len(batches), 9, func(i int) { runBatch(batches[i], i) })
 }
 
@@ -764,8 +772,14 @@ func main() {
 	}()
 	wg.Wait()
 
-	if run.Get("net.selftests_passed") == 0 {
-		run.Inconclusive("no batch passed the benign self-test")
+	if only != "lib" && run.Violations() == 0 && !abortRun.Load() {
+		// the network part must have been observed: a run in which the benign conversation fails is broken, not "held"
+		lost := run.Get("net.scripts_not_run(self-test failed)")
+		if run.Get("net.selftests_passed") == 0 || lost*4 > int64(nScripts) {
+			fmt.Printf("BROKEN property=C18 the benign self-test failed for %d of %d scripts' batches (node or harness does not survive a benign conversation); see INCONCLUSIVE lines\n", lost, nScripts)
+			os.RemoveAll(tmp)
+			os.Exit(2)
+		}
 	}
 	run.Count("cases", run.Get("net.messages_dispatched")+run.Get("lib.calls"))
 	run.Assume("the main loop is replaced by minimal consumers: NetTxs elements go through txpool.HandleNetTx, NetBlocks elements are dropped (block connection is not part of this property)")
